@@ -27,7 +27,7 @@ TIERS = {
 
 ASSERT_FORMS = ["literal", "computed", "via_func", "std_ok", "std_not_ok", "std_equal"]
 MALFORMED = ["nontuple", "ok_int", "desc_int", "no_ok", "no_desc", "ok_string"]
-ERRORS = ["fail", "missing_import", "type", "syntax", "runtime_opaque", "static_malformed"]
+ERRORS = ["fail", "missing_import", "type", "syntax", "runtime_opaque", "static_malformed", "div_zero", "format_too_few_args"]
 
 
 def generate(rng, tier, idx):
@@ -191,6 +191,10 @@ def render_test(world, ti):
                 L.append("let e%s = ;" % u)
             elif form == "runtime_opaque":
                 L.append('let e%s = idf(1) + idf("a");' % u)
+            elif form == "div_zero":
+                L.append("let e%s = 10 / idf(0);" % u)
+            elif form == "format_too_few_args":
+                L.append('let e%s = "@ and @" %% (1);' % u)
             elif form == "static_malformed":
                 L.append('assert {ok = 1, desc = "%s"};' % u)
     return "\n".join(L) + "\n"
@@ -457,7 +461,7 @@ def execute(world, sb, res):
                     res.violate("C13.verdict-model", "FAIL-reported-PASS", "%s cannot build (%s) but is reported Pass\n%s" % (test_path(t), m["err"], ctx))
                 if len(order) == 1:
                     alone_verdict[i] = "FAIL"
-                if m["err"] in ("fail", "runtime_opaque", "missing_import") and (m["ok"] or m["notok"]):
+                if m["err"] in ("fail", "runtime_opaque", "missing_import", "div_zero") and (m["ok"] or m["notok"]):
                     res.probe("build_error_after_assertions")
                 if m["err"] == "nonutf8_test_file" and "valid UTF-8" in "\n".join(s["lines"]):
                     res.fault("nonutf8_test_file")
